@@ -199,4 +199,51 @@ example : readXref false [] [(100, ⟨none, some (.int 200)⟩), (200, ⟨some (
     = .ok [100, 200] := by rfl
 example : readXref false [] [(100, ⟨none, some (.int (-1))⟩)] 100 = .error .pdfNoValidXRef := by rfl
 
+/-! ## page-tree walk (`PDFPage.create_pages.depth_first_search`) -/
+
+/-- Termination for EVERY object graph — Kids cycles, a node listed twice, Parent used as a kid, missing
+objects, direct (non-indirect) nodes, integers used as object numbers: the recursion is never deeper than
+`number of objects + 2`, and every object is expanded at most once (visited set). -/
+theorem C13_fuel_pagetree (strict : Bool) (g : Graph) (root : Obj) (parent : List (String × Obj)) :
+    dfsFuel strict g (g.length + 2) root parent [] ≠ .error .fuel := by
+  intro h
+  have hu := unvisited_le g []
+  have := (dfs_good C13_guards_present.1 C13_guards_present.2.2.1 (by decide) strict g (g.length + 2)
+    root parent [] (by omega)).1 _ h
+  exact absurd this (by decide)
+
+/-- The walk ends with the list of pages or a family error (PDFObjectNotFound for an integer kid that names
+no object; PDFTypeError / PDFValueError in STRICT mode). -/
+theorem C13_family_pagetree (strict : Bool) (g : Graph) (catalog : List (String × Obj)) :
+    Allowed (pageTree strict g catalog) := by
+  unfold pageTree
+  cases hc : catalog.lookup "Pages" with
+  | none => trivial
+  | some root =>
+    have hu := unvisited_le g []
+    have hgood := dfs_good C13_guards_present.1 C13_guards_present.2.2.1 (by decide) strict g (pageTreeBudget g)
+      root catalog [] (by unfold pageTreeBudget; omega)
+    cases hr : dfsFuel strict g (pageTreeBudget g) root catalog [] with
+    | error e =>
+      simp only [hr, Allowed, bind, Except.bind]
+      exact hgood.1 e hr
+    | ok r => simp [hr, Allowed, bind, Except.bind, pure, Except.pure]
+
+/-! ## get_widths: total on ill-typed arrays, but its work is NOT bounded by the input size -/
+
+/-- The full statement for `get_widths`: the number of dictionary entries it materialises is bounded by a
+constant times the length of the W array. -/
+def C13_get_widths_work_statement : Prop :=
+  ∃ c : Nat, ∀ (g : Graph) (seq : List Obj) (ws : List WEntry),
+    getWidths false g seq = .ok ws → widthsWork ws ≤ c * (seq.length + 1)
+
+/-- It does not hold: `/W [0 N 500]` makes the loop `for i in range(0, N + 1)` run N + 1 times for a
+three-element array (open finding `budget-replace`, replayed on the implementation by the harness). -/
+theorem C13_get_widths_work_cex : ¬ C13_get_widths_work_statement := by
+  intro ⟨c, h⟩
+  have := h [] [.int 0, .int (4 * c + 1), .int 500] [.range 0 (4 * c + 1) (.int 500)] (by
+    simp [getWidths, getWidthsLoop, resolve1, resolve1Fuel, isNumber, isInt, intOf, bind, Except.bind, pure, Except.pure])
+  simp [widthsWork] at this
+  omega
+
 end PdfVerif.Props.C13
